@@ -79,3 +79,22 @@ V("C03", "vcs-test-first", "S", "", CFP,
   "    if path.is_symlink():\n        _LOGGER.debug(\"skipping symlink '%s'\", path)\n        return True\n",
   "    if vcs_strategy and vcs_strategy.is_ignored(path):\n        return True\n    if path.is_symlink():\n        _LOGGER.debug(\"skipping symlink '%s'\", path)\n        return True\n")
 V("C03", "parent-name", "S", "", CFP, '    parent_dir = parent_parts[-1] if len(parent_parts) > 0 else ""\n', '    parent_dir = path.parent.name\n')
+
+# ----------------------------------------------------------------- C05
+GLP = R + "global_licensing.py"
+V("C05", "single-star-crosses-slash", "F", "R2", GLP,
+  '                    if prev_char == "*" and not globstar:\n                        blocks.append(r"[^/]*")\n                    blocks.append(re.escape(char))',
+  '                    if prev_char == "*" and not globstar:\n                        blocks.append(r".*")\n                    blocks.append(re.escape(char))')
+V("C05", "no-escape-of-literals", "F", "R1", GLP, "                    blocks.append(re.escape(char))\n", "                    blocks.append(char)\n")
+V("C05", "escaping-not-reset", "F", "R2", GLP,
+  "                    blocks.append(re.escape(char))\n                    globstar = False\n                    escaping = False\n",
+  "                    blocks.append(re.escape(char))\n                    globstar = False\n")
+V("C05", "escaped-star-arms-wildcard-again", "F", "R2", GLP,
+  "                        # A literal asterisk must not arm the wildcard logic.\n                        char = \"\"\n", "")
+V("C05", "unanchored", "F", "R2", GLP, 'return f"^({result})$"', 'return f"({result})"')
+V("C05", "search-instead-of-match", "F", "R1", GLP, "return bool(self._paths_regex.match(path))", "return bool(self._paths_regex.search(path))")
+V("C05", "trailing-star-dropped", "F", "R2", GLP,
+  '            if prev_char == "*" and not globstar:\n                blocks.append(r"[^/]*")\n            result = "".join(blocks)', '            result = "".join(blocks)')
+V("C05", "no-posix", "F", "R3", GLP,
+  '        path = PurePath(path).as_posix()\n        for item in reversed(self.annotations):', '        path = str(path)\n        for item in reversed(self.annotations):')
+VARIANTS.append({"prop": "C05", "id": "C05:rename-state-vars", "expect": "S", "rule": "", "edits": [], "sed": ("src/reuse/global_licensing.py", "globstar", "dbl_star")})
